@@ -1,6 +1,6 @@
 (* C15 — The client configures only acknowledged parameters, drops them on NAK or expiry (partial: timers are
    the runtime's; the automaton and its deadlines are proved).  Statements only. *)
-From PSA Require Import gen.GoFacts model.Bytes model.Client proofs.ClientProofs.
+From PSA Require Import gen.GoFacts model.Bytes model.Client proofs.ClientProofs spec.SpecClientHistory proofs.ClientHistory.
 Open Scope Z_scope.
 
 (* The interface is configured (and the hook told) only in the ifconfig state, with exactly the address, netmask,
@@ -125,6 +125,30 @@ Theorem C15_link_up_revalidates : forall s, c_phase s = PBound \/ c_phase s = PR
 Proof. exact resume_revalidates. Qed.
 Print Assumptions C15_link_up_revalidates.
 
+(* ---- over whole histories (definitions in spec/SpecClientHistory.v) ----
+   For every script of outcomes - any replies, timings, ARP answers, configuration failures and link-up events, of any
+   length - every Run-loop iteration of the run from the initial state satisfies step_ok with the summary of the history
+   before it: SetIface only with the parameters of the most recent accepted ACK and only after a clean ARP check since
+   that ACK; the interface holds exactly that configuration while bound / renewing / rebinding and none while
+   discovering; after a NAK, expiry, conflict or failed configuration the next iteration is the purge, which removes the
+   configuration, and the one after it discovers; after a link-up with a validated lease the next iteration rebinds with
+   resume_deadline to go; renewal starts at T1, rebinding at T2, the lease is given up at the expiry, T1/T2/expiry being
+   computed from the instant of configuration and that ACK. *)
+Theorem C15_history : forall croute script, hist_ok croute ghost0 (run_steps croute initial_client script).
+Proof. exact client_history. Qed.
+Print Assumptions C15_history.
+
+Theorem C15_history_nth : forall croute steps g i r, hist_ok croute g steps -> nth_error steps i = Some r ->
+  step_ok croute (summary g (firstn i steps)) r.
+Proof. exact hist_ok_nth. Qed.
+Print Assumptions C15_history_nth.
+
+(* the trace the correspondence check compares with the implementation is the concatenation of those iterations' actions *)
+Theorem C15_trace_is_history : forall croute script s,
+  run_script croute s script = concat (map sr_acts (run_steps croute s script)).
+Proof. exact run_script_is_steps. Qed.
+Print Assumptions C15_trace_is_history.
+
 Example C15_nonvacuous :
   let l := {| li_yiaddr := 167772260; li_sid := 167772161; li_mask := Some [255; 255; 240; 0]%N; li_routers := [167772161]%N; li_dns := [];
               li_domain := []; li_mtu := 1400; li_lease := 600 * ns_s; li_t1 := 0; li_t2 := 0 |} in
@@ -135,3 +159,19 @@ Example C15_nonvacuous :
       (run_script false initial_client script) =
   [(1, 0); (2, 0); (4, 0); (4, 500000000); (3, 1200000000); (4, 301300000000); (1, 301700000000); (2, 301700000000)].
 Proof. vm_compute. reflexivity. Qed.
+
+(* a history with a renewal, a link-up while bound and a NAK: 13 iterations, the lease re-validated by rebinding at the link-up *)
+Example C15_history_nonvacuous :
+  let l := {| li_yiaddr := 167772260; li_sid := 167772161; li_mask := None; li_routers := [167772161]%N; li_dns := [];
+              li_domain := []; li_mtu := 0; li_lease := 600 * ns_s; li_t1 := 0; li_t2 := 0 |} in
+  let script := [(EPurge, false); (EExchange 0 (XAccept ns_s l), false); (EExchange 0 (XAccept ns_s l), false);
+                 (EArp ANone, false); (ESetIface true None, false); (ESleep None, false);
+                 (EExchange 0 (XAccept ns_s l), false); (EArp ANone, false); (ESetIface true None, false);
+                 (ESleep (Some (5 * ns_s)), true); (EExchange 0 (XNak ns_s), false); (EPurge, false); (EExchange 0 XTimeout, false)] in
+  let steps := run_steps true initial_client script in
+  map (fun r => c_phase (sr_pre r)) steps =
+    [PPurge; PDiscover; PSelect; PArp; PIfconfig; PBound; PRenew; PArp; PIfconfig; PBound; PRebind; PPurge; PDiscover] /\
+  g_pending (summary ghost0 (firstn 10 steps)) = PMustRebind (308400000000 + resume_deadline) /\
+  g_conf (summary ghost0 (firstn 10 steps)) = Some (build_netconf true l) /\
+  g_conf (summary ghost0 steps) = None.
+Proof. vm_compute. repeat split; reflexivity. Qed.
